@@ -90,6 +90,12 @@ def build_query(n: int, pat: dict) -> tuple[str, list[str], list[tuple]]:
     elif kind == "nop":
         sql = pat["sql"]
         names, rows = ["status"], [("Statement executed successfully.",)]
+    elif kind == "shape":
+        # always the same statement text; the table behind it is re-made with k columns before every execute
+        k = pat["cols"]
+        sql = "SELECT * FROM shp ORDER BY 1"
+        names = [f"C{j}" for j in range(k)]
+        rows = [tuple(i * 10 + j for j in range(k)) for i in range(min(n, 7))]
     elif kind == "values":
         # SELECT over a VALUES clause (snowflake columnN naming)
         m = pat["m"]
@@ -132,6 +138,8 @@ def _random_pattern(r: random.Random) -> dict:
         return {"kind": "starjoin"}
     if x < 0.93:
         return {"kind": "dml", "which": r.choice(["insert", "update", "delete"])}
+    if x < 0.945:
+        return {"kind": "shape", "cols": r.randint(1, 5)}
     if x < 0.96:
         return {"kind": "nop", "sql": r.choice(["CALL some_proc(1)", "call other()", "GRANT ALL ON big TO ROLE x"])}
     return {"kind": "values", "m": r.randint(1, 4)}
@@ -163,6 +171,12 @@ def gen_cases(tier: str, seed: int):
             for script in itertools.product(alpha, repeat=ln):
                 pat = FIXED_PATTERNS[r.randrange(len(FIXED_PATTERNS))]
                 yield {"n": n, "pat": pat, "dict": r.random() < 0.3, "script": [list(s) for s in script], "part": "exh"}
+    # the same statement text executed again over a table of another shape (1..5 columns), fetched in several ways
+    for k1, k2, k3 in itertools.permutations([1, 2, 3, 5], 3):
+        for d in (False, True):
+            for mid in (["one"], ["many", 2], ["all"], ["rowcount"]):
+                yield {"n": 4, "pat": {"kind": "shape", "cols": k1}, "dict": d, "part": "shape",
+                       "script": [mid, ["reexec", 4, {"kind": "shape", "cols": k2}], ["one"], ["all"], ["reexec", 3, {"kind": "shape", "cols": k3}], ["many", 5]]}
     # before-execute cases
     for op in (["one"], ["all"], ["many", 2], ["pandas"], ["as_many", 3]):
         for d in (False, True):
@@ -226,6 +240,25 @@ def _reset_scratch() -> None:
     raw.close()
 
 
+def _make_shape(k: int, n: int) -> None:
+    raw = core.raw_root(_state["fs"]).cursor()
+    cols = ", ".join(f"C{j} INT" for j in range(k))
+    raw.execute(f"CREATE OR REPLACE TABLE DB1.S1.SHP ({cols})")
+    for i in range(min(n, 7)):
+        raw.execute(f"INSERT INTO DB1.S1.SHP VALUES ({', '.join(str(i * 10 + j) for j in range(k))})")
+    raw.close()
+
+
+def _check_description(env: core.Env, cur: Any, names: list, sql: str) -> bool:
+    """The description of the result just executed names its columns (what DictCursor keys and tuple widths go by)."""
+    env.count("cmp_description_names")
+    d = core.read_description(cur)
+    if d["ok"] and d["names"] != names:
+        env.witness("C05/description-of-another-result", f"{sql}: description names {d['names']} but the result has columns {names}")
+        return False
+    return True
+
+
 def _eq_rows(got: list, exp: list) -> bool:
     return got == exp
 
@@ -271,7 +304,11 @@ def run_case(case: dict, env: core.Env) -> None:
 
     if pat["kind"] == "dml":
         _reset_scratch()
+    if pat["kind"] == "shape":
+        _make_shape(pat["cols"], case["n"])
     cur.execute(sql)
+    if not _check_description(env, cur, names, sql):
+        return
     pos = 0
     handed = 0
     asz = cur.arraysize  # the connector's default (1) until the script sets it
@@ -289,7 +326,11 @@ def run_case(case: dict, env: core.Env) -> None:
             dup = "dup-names" if len(set(names)) != len(names) else "distinct-names"
             if pat["kind"] == "dml":
                 _reset_scratch()
+            if pat["kind"] == "shape":
+                _make_shape(pat["cols"], n)
             cur.execute(sql)
+            if not _check_description(env, cur, names, sql):
+                return
             pos = 0
             continue
         if kind == "rowcount":
